@@ -1,6 +1,6 @@
 (** Properties_C03.v — C03: the file server never touches anything outside the
     served directory.  Statements only. *)
-From GW Require Import Base GoPath Fs DavServer Rfc4918 FsProofs DavRefine DavCorollaries.
+From GW Require Import Base GoPath Fs DavServer Rfc4918 FsProofs DavRefine DavCorollaries RelocProofs.
 Local Open Scope list_scope.
 
 (** For every byte string [name]: if localPath maps it at all, every segment below
@@ -52,3 +52,26 @@ Theorem C03_unmappable_refused : forall root sb r,
   status (snd (serve root sb r)) = 400%N /\ fst (serve root sb r) = sb.
 Proof. exact unmappable_path_refused. Qed.
 Print Assumptions C03_unmappable_refused.
+
+(** * Non-interference
+
+    Serving from the directory at [root] inside any sandbox is serving the subtree
+    mapped at [root] at its own top: the response is the same, and what is mapped at
+    the root afterwards is what the subtree becomes.  Hence nothing beside or above
+    the root is ever read: two sandboxes that agree on the served directory (an
+    existing one) give the same answers and agree afterwards.  (When the served
+    directory is missing, MKCOL of "/" looks at the root's parent:
+    [RelocProofs.mkcol_root_reads_parent].) *)
+Theorem C03_serve_relocates : forall root sb n0 r,
+  geto sb root = Some n0 ->
+  snd (serve root sb r) = snd (serve [] (Some n0) r) /\
+  geto (fst (serve root sb r)) root = fst (serve [] (Some n0) r).
+Proof. exact serve_relocates. Qed.
+Print Assumptions C03_serve_relocates.
+
+Theorem C03_noninterference : forall root sb1 sb2 r,
+  geto sb1 root = geto sb2 root -> exists_ (geto sb1 root) = true ->
+  snd (serve root sb1 r) = snd (serve root sb2 r) /\
+  geto (fst (serve root sb1 r)) root = geto (fst (serve root sb2 r)) root.
+Proof. exact serve_noninterference. Qed.
+Print Assumptions C03_noninterference.
